@@ -422,9 +422,14 @@ theorem formation_refines_reference_linear (ps : List Proto) (cs : List Cand) (h
     (h : formation ps none = .ok cs) : RefinesLinear ps cs :=
   formation_refines_linear hn hne hv h
 
-/-- Not proved: the composition of the three passes with the coordinate table equals `Spec.reference`
-    (the correspondence compares every implementation output with it).  The per-pass theorems of
-    section 5 give the groups of each pass; the table step is covered by sections 2–4. -/
+/-- Still not proved: equality with the *executable* `Spec.reference` (the correspondence compares every
+    implementation output with it).  `formation_refines_reference_linear` gives the run stage by stage in
+    the reference's own notions; what is missing for the equality is
+    (1) that `Spec.classesOf` (fixpoint union) returns exactly the `Linked` chain classes of
+        `shareGroups` / `overlapGroups` (with the ≥ 2-units filter),
+    (2) that `Spec.addGroups` satisfies `PassDesc` (it is that statement read as a definition) and
+        the unfolding of the monadic `reference` into its six stages,
+    (3) circular records. -/
 def FormationRefinesReference : Prop :=
   ∀ (ps : List Proto) (wrap : Option Int) (cs : List Cand) (es : List (Kind × List Proto)), ps.Nodup →
     formation ps wrap = .ok cs → reference ps wrap = .ok es →
